@@ -90,7 +90,11 @@ class Prop:
         'resource.prlimit/setrlimit', 'time (simulated clock)',
         'os.getpid/threading.get_ident in tmpfiles', 'fork (module-state copy)',
         'signals (SIGINT as KeyboardInterrupt at a yield point, SIGKILL as '
-        'abandoning the run)'
+        'abandoning the run)',
+        'the shared node-id counter (multiprocessing.Value: SimCounter)',
+        'threading.Thread/Lock/Event and concurrent.futures (threads started '
+        'by the program are actors of their simulated process; unused by the '
+        'unchanged tree)'
     ]
 
 
@@ -146,26 +150,47 @@ def accepted_file_digests(res, cfg):
     g, gcc = golden_runs(res)
     acc = {}
     inv = res.rec.inv
-    i = 0
     cands = [d for d in inv if not (d['file'] or '').startswith('$SB/in')]
-    # group: a main-command invocation optionally followed by the cc
-    # invocation of the same actor on the same file
-    k = 0
-    while k < len(cands):
-        d = cands[k]
-        if d['which'] == 'cc':
-            k += 1
-            continue
+    # group: a main-command invocation and the cross-check invocation of the
+    # same process on the same file that belongs to the same check (probe), or
+    # - without the probe - lies between this and the neighbouring
+    # main-command invocations of that process.  The two runs may be started
+    # in either order and by different threads of the process.
+    def root(d):
+        return str(d['actor']).split('.')[0]
+
+    mains = [d for d in cands if d['which'] != 'cc']
+    ccs = [d for d in cands if d['which'] == 'cc']
+    used = set()
+    by_root = collections.defaultdict(list)
+    for d in mains:
+        by_root[root(d)].append(d['idx'])
+    for d in mains:
         run = run_tuple(d)
         run_cc = None
         d_cc = None
         if gcc is not None:
-            for e in cands[k + 1:]:
-                if e['actor'] == d['actor']:
-                    if e['which'] == 'cc' and e['file'] == d['file']:
-                        run_cc = run_tuple(e)
-                        d_cc = e
-                    break
+            idxs = by_root[root(d)]
+            p = idxs.index(d['idx'])
+            lo = idxs[p - 1] if p > 0 else -1
+            hi = idxs[p + 1] if p + 1 < len(idxs) else float('inf')
+            best = None
+            for e in ccs:
+                if e['idx'] in used or root(e) != root(d) or \
+                        e['file'] != d['file']:
+                    continue
+                if d.get('check') is not None and e.get('check') is not None:
+                    if e['check'] != d['check']:
+                        continue
+                elif not (lo < e['idx'] < hi):
+                    continue
+                if best is None or abs(e['idx'] - d['idx']) < abs(
+                        best['idx'] - d['idx']):
+                    best = e
+            if best is not None:
+                used.add(best['idx'])
+                run_cc = run_tuple(best)
+                d_cc = best
         ok = False
         if g is not None and d['dig'] is not None:
             ok = refrule.accepts(cfg, g, run, gcc, run_cc)
@@ -173,7 +198,6 @@ def accepted_file_digests(res, cfg):
                 ok = False  # the two commands did not see the same candidate
         if ok:
             acc.setdefault(d['dig'], d['idx'])
-        k += 1
     return acc
 
 
